@@ -966,11 +966,22 @@ def fold_sum(vals):
                 fs = f32(fs)
             if fs != lv:
                 approx = True
+                if abs(fs - lv) > 1e-9 * max(abs(fs), abs(lv)):
+                    # catastrophic cancellation: a compensated sum (CPython >= 3.12) and a plain fold differ in
+                    # the leading digits; which one an implementation returns is not decided here
+                    raise Undecided('floating point sum depends on the summation algorithm (cancellation)')
         except (OverflowError, ValueError):
             approx = True
+    if len(vals) >= 3:
+        # F&O defines fn:sum by repeated op:numeric-add but leaves the association open in practice: CPython's
+        # sum() (used by the engine) is a compensated summation since 3.12 and may differ from every plain
+        # left/right fold by an ulp.  The last bits of a floating sum of three or more values are not decided.
+        approx = True
     if not same:
         if (lv != lv) != (rv != rv) or lv in (math.inf, -math.inf) or rv in (math.inf, -math.inf):
             raise Undecided('floating point sum depends on the order of additions (overflow)')
+        if abs(lv - rv) > 1e-9 * max(abs(lv), abs(rv)):
+            raise Undecided('floating point sum depends on the order of additions (cancellation)')
         approx = True
     return V(t, lv, approx)
 
